@@ -26,12 +26,13 @@ theorem scan_length (rate tsMax : α) : ∀ (ds : List α) (p : α) (i : Int), (
 
 theorem scan_succ (rate tsMax p : α) (i : Int) (d : α) (ds : List α) (k : Nat) :
     (scanSteps rate tsMax p i (d :: ds))[k + 1]? =
-      (scanSteps rate tsMax (step_ts_next (step_ts_end (step_ts_start p) d) p rate) (i + 1) ds)[k]? := by
+      (scanSteps rate tsMax (step_ts_next (step_ts_start p) (step_ts_end p (step_ts_start p) d) p rate) (i + 1) ds)[k]? := by
   simp [scanSteps]
 
 theorem scan_zero (rate tsMax p : α) (i : Int) (d : α) (ds : List α) :
     (scanSteps rate tsMax p i (d :: ds))[0]? =
-      some ⟨step_seq (step_ts_end (step_ts_start p) d) tsMax i, step_ts_start p, step_ts_end (step_ts_start p) d⟩ := by
+      some ⟨step_seq (step_ts_start p) (step_ts_end p (step_ts_start p) d) tsMax i, step_ts_start p,
+        step_ts_end p (step_ts_start p) d⟩ := by
   simp [scanSteps]
 
 /-- **Starts at the phase**: the first vertex of a node starts at the node's phase (the initial carry of the scan). -/
@@ -506,6 +507,12 @@ theorem gen_edge_potential (skip : Bool) (inf tsMax dflt : α) (sender : List (V
   rw [this] at htk
   have h1 := gen_recv_after_send inf sender delays hd hinf' k v r hv hr
   exact takes_antitone skip t v.tsStart r (le_trans (hse v (List.mem_of_getElem? hv)) h1) htk
+
+/-- the hypotheses of `gen_edge_spec` / `gen_edge_potential` are satisfiable (integers as the time domain, horizon 20,
+`inf` = 1000): two sent messages over a skipped connection and one vertex that never ran. -/
+example :
+    let e := genEdge true (1000 : Int) 20 0 [⟨0, 0, 1⟩, ⟨1, 10, 11⟩, ⟨-1, 20, 21⟩] [0, 4, 0] [0, 10, 20, 30] 2
+    (e.seqOut, e.seqIn, e.tsRecv) = ([0, 1, -1], [1, 2, -1], [1, 15, -1]) := by decide
 
 /-- lexicographic potential `(start time, rank of the node)` -/
 def potLt (a b : α × Nat) : Prop := a.1 < b.1 ∨ (a.1 ≤ b.1 ∧ a.2 < b.2)
